@@ -92,6 +92,7 @@ def extract(driver, defs=()):
     cmd = clang_cmd(defs) + [
         "-fplugin=" + PLUGIN,
         "-Xclang", "-plugin-arg-factdump", "-Xclang", "out=" + tmp,
+        "-Xclang", "-plugin-arg-factdump", "-Xclang", "recroot=" + DRIVERS + "/",
         os.path.join(DRIVERS, driver),
     ]
     r = subprocess.run(cmd, capture_output=True, text=True)
